@@ -110,7 +110,11 @@ def sum_of_2d_modes(modes, weights):
 
     """
     modes = np.asarray(modes)
-    weights = np.asarray(weights).astype(modes.dtype)
+    weights = np.asarray(weights)
+    # keep the (possibly reduced) precision of the modes, but never cast the
+    # weights to a kind that cannot hold them (float -> int/bool, complex -> real)
+    if np.can_cast(weights.dtype, modes.dtype, 'same_kind'):
+        weights = weights.astype(modes.dtype)
 
     # dot product of the 0th dim of modes and weights => weighted sum
     return np.tensordot(modes, weights, axes=(0, 0))
